@@ -3,6 +3,7 @@
 package engines
 
 import (
+	"io"
 	"crypto/ed25519"
 	"crypto/rand"
 	"crypto/tls"
@@ -44,6 +45,43 @@ func chunkALPN(prefix, value string) []string {
 		return []string{prefix}
 	}
 	return out
+}
+
+// handMadeClientHello builds the bytes of a ClientHello no crypto/tls client would send: a chosen legacy version, no
+// supported_versions extension, and an ALPN extension with the given entries.
+func handMadeClientHello(legacyVersion uint16, withSupportedVersions bool, alpn []string, random []byte) []byte {
+	u16 := func(v int) []byte { return []byte{byte(v >> 8), byte(v)} }
+	var al []byte
+	for _, p := range alpn {
+		if len(p) > 255 {
+			p = p[:255]
+		}
+		al = append(al, byte(len(p)))
+		al = append(al, p...)
+	}
+	var ext []byte
+	addExt := func(typ int, body []byte) {
+		ext = append(ext, u16(typ)...)
+		ext = append(ext, u16(len(body))...)
+		ext = append(ext, body...)
+	}
+	addExt(16, append(u16(len(al)), al...)) // ALPN
+	sni := []byte("server")
+	addExt(0, append(u16(len(sni)+3), append([]byte{0}, append(u16(len(sni)), sni...)...)...))
+	addExt(10, []byte{0, 2, 0, 29})                  // supported_groups: x25519
+	addExt(13, []byte{0, 4, 8, 7, 4, 3})             // signature_algorithms: ed25519, ecdsa-p256-sha256
+	if withSupportedVersions {
+		addExt(43, []byte{2, 3, 4})
+	}
+	body := append(u16(int(legacyVersion)), random[:32]...)
+	body = append(body, 0)                                              // session id
+	body = append(body, 0, 6, 0x13, 0x01, 0x13, 0x02, 0xc0, 0x2b)      // cipher suites
+	body = append(body, 1, 0)                                           // compression: null
+	body = append(body, u16(len(ext))...)
+	body = append(body, ext...)
+	hs := append([]byte{1, byte(len(body) >> 16), byte(len(body) >> 8), byte(len(body))}, body...)
+	rec := append([]byte{22, 3, 1}, u16(len(hs))...)
+	return append(rec, hs...)
 }
 
 var libPrefixes = []string{nodeenrollment.FetchNodeCredsNextProtoV1Prefix, nodeenrollment.AuthenticateNodeNextProtoV1Prefix, nodeenrollment.CertificatePreferenceV1Prefix}
@@ -257,6 +295,20 @@ func propC14(r *kernel.Run) {
 			}
 			if a.err == nil && strings.HasPrefix(a.negotiated, nodeenrollment.AuthenticateNodeNextProtoV1Prefix) {
 				okc++
+				if res.conn != nil && tp.Draw(4) == 0 {
+					// the connection is the application's now: it is still usable after the listener has long moved on
+					r.Sleep(time.Duration(tp.Range(11, 300)) * time.Second)
+					var rerr, werr error
+					buf := make([]byte, 4)
+					srvConn, cliConn := a.raw, res.conn
+					r.Sched.Go(fmt.Sprintf("use-cli%d", r.NextID()), "app", func() { _, werr = cliConn.Write([]byte("ping")) })
+					r.Sched.Go(fmt.Sprintf("use-srv%d", r.NextID()), "app", func() { _, rerr = io.ReadFull(srvConn, buf) })
+					w.Quiesce()
+					if werr != nil || rerr != nil || string(buf) != "ping" {
+						r.Violate("keeps-accepting", "accepted-connection-unusable-later", "an authenticated connection handed to the application could not carry data some seconds later: write err=%v read err=%v got %q", werr, rerr, buf)
+					}
+					r.Count("ops.connection_used_later", 1)
+				}
 				a.raw.Close()
 			} else if a.err != nil && !a.temporary {
 				r.Violate("temporary-errors", "non-temporary-error-for-connection", "non-temporary error while serving an honest node: %v", a.err)
@@ -285,7 +337,7 @@ func propC14(r *kernel.Run) {
 			r.Count("fault.clock_jump_past_validity", 1)
 			r.Tracef("clock jump %v: validity outage begins", d)
 		}
-		kind := Pick2(tp, "raw-bytes", "alpn", "alpn", "alpn", "dropped-handshake", "dropped-handshake", "stall-then-drop", "unauthorized-fetch", "peer-aborts-with-alert", "forged-requests-naming-the-honest-node")
+		kind := Pick2(tp, "raw-bytes", "alpn", "alpn", "alpn", "dropped-handshake", "dropped-handshake", "stall-then-drop", "unauthorized-fetch", "peer-aborts-with-alert", "forged-requests-naming-the-honest-node", "hand-made-client-hello")
 		class := ""
 		// the server's own Close of a refused/handled connection may report an error (peer reset): still a per-connection matter
 		closeErr := tp.Draw(4) == 0
@@ -361,6 +413,35 @@ func propC14(r *kernel.Run) {
 			cert, _ := selfSignedTLS("attacker", x509.ExtKeyUsageClientAuth)
 			w.rawClient(name, &tls.Config{NextProtos: list, RootCAs: x509.NewCertPool(), MinVersion: tls.VersionTLS13, ServerName: "server", Certificates: []tls.Certificate{cert}})
 			r.Count("fault.peer_alert", 1)
+		case "hand-made-client-hello":
+			// a ClientHello written by hand: an ancient legacy version and no supported_versions extension (or a modern one),
+			// with ALPN entries under the library's prefixes
+			ver := []uint16{0x0300, 0x0200, 0x0301, 0x0302, 0x0303, 0x0000}[tp.Draw(6)]
+			sv := tp.Draw(4) == 0
+			list, cls := hostileALPN(r, srv, honest)
+			if tp.Draw(2) == 0 {
+				list = []string{libPrefixes[tp.Draw(3)] + "00-AAAA"}
+			}
+			total := 0
+			for i, p := range list {
+				if total += len(p) + 1; total > 15000 {
+					list = list[:i]
+					break
+				}
+			}
+			class = fmt.Sprintf("legacy-version-%04x-supported-versions-%v/%s", ver, sv, cls)
+			payload := handMadeClientHello(ver, sv, list, tp.Bytes(32))
+			r.Sched.Go(name, "adversary", func() {
+				c, err := w.Net.Dial(w.Addr, name)
+				if err != nil {
+					return
+				}
+				c.Write(payload)
+				buf := make([]byte, 4096)
+				c.Read(buf) // whatever the server answers (an alert, a ServerHello)
+				c.Close()
+			})
+			r.Count("fault.hand_made_client_hello", 1)
 		case "forged-requests-naming-the-honest-node":
 			// anybody can read a node's public key off the wire: a burst of authentication requests that name the honest
 			// node's key with worthless signatures. They fail; the honest node is not affected.
